@@ -277,6 +277,9 @@ func generate(family string, rng *rand.Rand, thorough bool) []plan {
 		// Seq / ToSeq: identity
 		for r := 0; r < 6*mul; r++ {
 			xs := anyInput(rng, rng.Intn(7))
+			if r%3 == 2 {
+				xs = anyInput(rng, 60+rng.Intn(80)) // long sequences too: Seq takes any number of elements
+			}
 			add(plan{stage: &Stage{Kind: "seq", Xs: xs}, sched: rnd(0, 0, 4, 0, 0, 0, nil), maxMoves: 12, drain: true, gen: "random"})
 		}
 	case "C06":
@@ -284,6 +287,7 @@ func generate(family string, rng *rand.Rand, thorough bool) []plan {
 			stages := seqStages(rng)
 			stages = append(stages,
 				&Stage{Kind: "join", N: 2},
+				&Stage{Kind: "join", N: []int{0, 1, 3}[rng.Intn(3)]}, // also no input at all: the output closes at once
 				&Stage{Kind: "unfold", N: rng.Intn(3), Seed: rng.Intn(3), A: 2, B: 1},
 				&Stage{Kind: "emit", N: rng.Intn(3), Freq: []int{1, 3, 10}[rng.Intn(3)], A: 1, B: 0},
 				&Stage{Kind: "throttle", Ops: rng.Intn(3) + 1, Freq: rng.Intn(5) + 2},
